@@ -383,7 +383,7 @@ def fnFadMomentsStream (a : Args) : Except Err String := do
   let es ← liftP (a.tlist "embeddings")
   let d := (es.head?.map fun e => e.shape.getD 1 0).getD 0
   if es.any (fun e => e.ndim != 2 || e.shape.getD 1 0 != d) then throw .other
-  let s := es.foldl (fun s e => fadAdd s (fadBatch d e.rows)) ⟨0, vzero d, mzero d d⟩
+  let s := es.foldl (fun s e => fadAdd s (fadBatch d e.rows)) (fadBatch d [])
   if s.n < 2 then throw .other
   pure (showCov (fadMoments s))
 
